@@ -29,6 +29,22 @@ def run (op : String) (args impl : List String) : Outcome :=
         tags := ["preview", kind] ++ (if logged.toNat! ≥ 3 then ["nt"] else []) ++ (if cur == "-" then ["no-match"] else []) ++
           (if (steps.splitOn "64,81,85,69,82,89,64").length > 1 then ["template-switched"] else []) }
     | _ => { model := "bad-answer", spec := specFail "[C20] the session could not be observed" }
+  | "plus", [_n1, _n2, _tail, _sel] =>
+    -- --tail trims selected lines away while input keeps arriving: the {+} of the last preview command
+    -- must be the selection fzf itself reports at quiescence (or the current line when nothing is selected)
+    match impl with
+    | [cur, lastk, lastPlus, selNow, shown] =>
+      let want := if selNow == "-" then cur else selNow
+      let spec :=
+        if cur != "-" ∧ lastk != cur then
+          specFail s!"[C20] at quiescence the last preview command run is for line {lastk}, the cursor is on line {cur}"
+        else if cur != "-" ∧ lastPlus != want then
+          specFail s!"[C20] at quiescence the last preview command ran with the selection {lastPlus}, the selection is {want}"
+        else if cur != "-" ∧ shown != "1" then
+          specFail s!"[C20] at quiescence the preview pane does not show the output for the current selection"
+        else specOk
+      { model := " ".intercalate impl, same := some true, spec, tags := ["preview", "tail-plus", "nt"] }
+    | _ => { model := "bad-answer", spec := specFail "[C20] the session could not be observed" }
   | _, _ => { model := "bad-op" }
 
 end Driver.Preview
